@@ -40,8 +40,8 @@ ShortViol(r) ==
                       THEN {<<"C01", "structured-not-constructible">>, <<"C02", "structured-not-constructible">>,
                             <<"C03", "structured-not-constructible">>} ELSE {})
        ELSE
-       LET vecR == Sub(r, 9, 26)   vecS == Sub(r, 35, 26)   flags == Sub(r, 61, 12)
-           back == Sub(r, 73, 3)   rt2 == Sub(r, 76, 3)     into == Sub(r, 79, 3)
+       LET vecR == Sub(r, 9, 26)   vecS == Sub(r, 35, 26)   flags == Sub(r, 61, 16)
+           back == Sub(r, 77, 3)   rt2 == Sub(r, 80, 3)     into == Sub(r, 83, 3)
            c == Canon(s, d1, d2)
            expR == Obs(s, d1, d2)
            expS == Obs(c[1], c[2], c[3])
@@ -57,7 +57,7 @@ ShortViol(r) ==
           \cup (IF back = c THEN {} ELSE {<<"C01", "structured-to-raw-bytes-not-canonical">>})
           \cup (IF rt2 = c THEN {} ELSE {<<"C01", "round-trip-not-idempotent">>})
           \cup (IF into = <<s, d1, d2>> THEN {} ELSE {<<"C01", "raw-into-tuple">>})
-          \cup {<<"C03", "flag" \o ToString(j)>> : j \in {x \in 1..12 : flags[x] # 1}}
+          \cup {<<"C03", "flag" \o ToString(j)>> : j \in {x \in 1..16 : flags[x] # 1}}
           \* C03: the ONLY permitted difference in the byte getters is information-free parts set to zero
           \cup (IF Sub(vecS, 15, 3) = Mask(s, d1, d2) /\ Sub(vecS, 18, 3) = Mask(s, d1, d2) THEN {}
                 ELSE {<<"C03", "structured-bytes-not-masked-raw-bytes">>})
@@ -66,13 +66,18 @@ ShortViol(r) ==
                 ELSE {<<"C03", "structured-vs-raw-" \o accName(CHOOSE j \in (1..14) \cup (21..26) : vecS[j] # vecR[j])>>})
           \cup (IF r[8] = 0 THEN {} ELSE {<<"C18", "alloc">>})
           \cup (IF HasPanic(r) THEN {<<"C18", "panic">>} ELSE {})
-          \cup (IF \A j \in {4, 5, 6, 7, 8, 9, 10} : vecR[j] <= 127 /\ vecS[j] <= 127 THEN {} ELSE {<<"C04", "range">>})
+          \cup (IF \A j \in {5, 6, 7, 8, 9, 10} : vecR[j] <= 127 /\ vecS[j] <= 127 THEN {} ELSE {<<"C04", "range">>})
+          \cup (IF vecR[4] <= 15 /\ vecS[4] <= 15 THEN {} ELSE {<<"C04", "channel-range">>})
+          \cup (IF (HasPanic(Sub(vecR, 23, 4)) \/ StructuredValid(Sub(vecR, 23, 4)))
+                   /\ (HasPanic(Sub(vecS, 23, 4)) \/ StructuredValid(Sub(vecS, 23, 4)))
+                THEN {} ELSE {<<"C04", "structured-field-range">>})
           \cup (IF vecR[11] <= 16383 /\ vecS[11] <= 16383 /\ vecR[16] <= 127 /\ vecR[17] <= 127
                    /\ vecS[16] <= 127 /\ vecS[17] <= 127 THEN {} ELSE {<<"C04", "range">>})
 
 (***************************** table `structured` **************************)
 (* a StructuredShortMessage value built directly from its fields            *)
 StructViol(r) ==
+    IF Len(r) = 5 THEN {<<"C18", "panic">>, <<"C01", "direct-structured-construction-panics">>} ELSE
     LET x == Sub(r, 1, 4)
         vec == Sub(r, 6, 26)  rawb == Sub(r, 32, 3)  flags == Sub(r, 35, 5)
         b == BytesOf(x)
@@ -123,7 +128,7 @@ TypesViol(r) ==
       [] r[1] = 4 ->
            LET i == r[2] + 1 IN
            (IF r[3] = ControllerTable[i] THEN {}
-            ELSE {<<IF i >= 39 THEN "C02" ELSE "C16", "controller-constant-" \o ToString(r[2])>>})
+            ELSE {<<IF i >= 47 THEN "GROWTH" ELSE IF i >= 39 THEN "C02" ELSE "C16", "controller-constant-" \o ToString(r[2])>>})
            \cup (IF r[3] \in 0..127 THEN {} ELSE {<<"C04", "constant-out-of-range">>})
            \cup (IF i \in 17..32 /\ r[3] # ControllerTable[i - 16] + 32 THEN {<<"C16", "lsb-constant">>} ELSE {})
 
@@ -168,6 +173,7 @@ IntsViol(r) ==
                /\ r[10] = c /\ r[11] = c
                /\ r[12] = (IF a >= b THEN a ELSE b) /\ r[13] = (IF a <= b THEN a ELSE b)
             THEN {} ELSE {<<"C05", "ordering">>})
+           \cup (IF r[14] = 0 /\ ~HasPanic(r) THEN {} ELSE {<<"C18", "ints">>})
       [] r[1] = 9 ->                 \* consts: [9,cfg,T,MIN,MAX,default]
            (IF r[4] = 0 /\ r[5] = MaxOf(T) /\ r[6] = 0 THEN {} ELSE Both("min-max-default"))
 
@@ -229,6 +235,13 @@ FactoryViol(r) ==
                   \cup (IF r[35] = 0 /\ ~HasPanic(vec) THEN {} ELSE {<<"C18", "factory-accessors">>})
                   \cup (IF vec[16] <= 127 /\ vec[17] <= 127 THEN {} ELSE {<<"C04", "data-byte-out-of-range">>})
              ELSE {})
+       \* C04: whatever the panic column says, a constructed value is never out of range
+       \cup (IF pan = 0 /\ isMsg /\ Len(r) >= 34
+                /\ ~(r[9 + 15] \in (-2)..127 /\ r[9 + 16] \in (-2)..127 /\ r[9 + 3] \in (-2)..15)
+             THEN {<<"C04", "data-byte-out-of-range">>} ELSE {})
+       \cup (IF pan = 0 /\ c >= 50 /\ c <= 55 /\ Len(r) >= 9
+                /\ r[9] > (CASE c \in {50, 53} -> 15 [] c = 52 -> 16383 [] OTHER -> 127)
+             THEN {<<"C04", "shorthand-int-out-of-range">>} ELSE {})
        \cup (IF pan = 0 /\ ~wantPan /\ c >= 50 /\ c <= 55 /\ r[9] # a[1] THEN {<<"C06", "shorthand-int">>} ELSE {})
        \cup (IF pan = 0 /\ ~wantPan /\ c = 56 /\ Sub(r, 9, 3) # <<a[1], a[2], a[3]>> THEN {<<"C06", "shorthand-cc14">>} ELSE {})
        \cup (IF pan = 0 /\ ~wantPan /\ c \in 57..60
@@ -265,7 +278,9 @@ SerdeViol(r) ==
       [] r[1] = 1 ->        \* [1,T,src,cls,v,ok,res]; serde primitive value deserializers
            (IF r[6] = -2 THEN {<<"C19", "deserialize-panics">>} ELSE {})
            \cup (IF r[6] = 1 /\ ~(InRange(r[2], r[7]) /\ r[4] = 0 /\ r[7] = r[5]) THEN {<<"C19", "int-out-of-range-accepted">>} ELSE {})
-           \cup (IF r[3] \in {0, 2} /\ TryOk(r[2], r[4], r[5]) /\ r[6] # 1 THEN {<<"C19", "int-valid-rejected">>} ELSE {})
+           \* demanded only for the NATURAL primitive of the type (what Serialize emits): u8, or u16 for U14
+           \cup (IF r[3] = (IF r[2] = 2 THEN 2 ELSE 0) /\ TryOk(r[2], r[4], r[5]) /\ r[6] # 1
+                 THEN {<<"C19", "int-valid-rejected">>} ELSE {})
       [] r[1] = 2 ->        \* RawShortMessage from [s,d1,d2]
            IF r[2] = -9 THEN (IF r[5] = -2 THEN {<<"C19", "deserialize-panics">>} ELSE {})
            ELSE LET valid == ValidStatus(r[2]) /\ r[3] \in 0..127 /\ r[4] \in 0..127 IN
@@ -274,11 +289,14 @@ SerdeViol(r) ==
                 \cup (IF valid /\ r[5] # 1 THEN {<<"C19", "raw-valid-rejected">>} ELSE {})
                 \cup (IF valid /\ r[5] = 1 /\ ~(<<r[6], r[7], r[8]>> = <<r[2], r[3], r[4]>> /\ r[9] = TypeOf(r[2]))
                       THEN {<<"C19", "raw-value-changed">>} ELSE {})
+                \cup (IF r[5] = 1 /\ (r[9] = -2 \/ r[10] = -2) THEN {<<"C19", "raw-accessor-panics-after-deserialize">>} ELSE {})
       [] r[1] \in {3, 9} ->   \* ControlChange14BitMessage (3: from a map, 9: from a sequence)
            LET valid == r[2] \in 0..15 /\ r[3] \in 0..31 /\ r[4] \in 0..16383 IN
            (IF r[5] = -2 THEN {<<"C19", "deserialize-panics">>} ELSE {})
            \cup (IF r[5] = 1 /\ ~valid THEN {<<"C19", "cc14-invalid-accepted">>} ELSE {})
-           \cup (IF valid /\ r[5] # 1 THEN {<<"C19", "cc14-valid-rejected">>} ELSE {})
+           \* (for the positional form only soundness and value fidelity are demanded)
+           \cup (IF r[1] = 3 /\ valid /\ r[5] # 1 THEN {<<"C19", "cc14-valid-rejected">>} ELSE {})
+           \cup (IF r[5] = 1 /\ (r[9] = -2 \/ r[10] = -2) THEN {<<"C19", "cc14-accessor-panics-after-deserialize">>} ELSE {})
            \cup (IF valid /\ r[5] = 1 /\ ~(<<r[6], r[7], r[8]>> = <<r[2], r[3], r[4]>> /\ r[9] = r[3] + 32 /\ r[10] = r[3] + 32)
                  THEN {<<"C19", "cc14-value-changed">>} ELSE {})
       [] r[1] \in {4, 8} ->   \* ParameterNumberMessage (4: from a map, 8: from a sequence)
@@ -286,7 +304,8 @@ SerdeViol(r) ==
                valid == r[7] <= 2 /\ PnValid(msg) IN
            (IF r[8] = -2 THEN {<<"C19", "deserialize-panics">>} ELSE {})
            \cup (IF r[8] = 1 /\ ~valid THEN {<<"C19", "pn-inconsistent-accepted">>} ELSE {})
-           \cup (IF valid /\ r[8] # 1 THEN {<<"C19", "pn-valid-rejected">>} ELSE {})
+           \cup (IF r[1] = 4 /\ valid /\ r[8] # 1 THEN {<<"C19", "pn-valid-rejected">>} ELSE {})
+           \cup (IF r[8] = 1 /\ ~(r[15] \in 0..127) THEN {<<"C19", "pn-encoder-fails-after-deserialize">>} ELSE {})
            \cup (IF valid /\ r[8] = 1 /\ Sub(r, 9, 6) # msg THEN {<<"C19", "pn-value-changed">>} ELSE {})
       [] r[1] = 5 ->        \* StructuredShortMessage
            LET x == <<r[2], r[3], r[4], r[5]>>  valid == StructuredValid(x) IN
